@@ -491,6 +491,7 @@ fn gen_soup(r: &mut Rng, names: &[String], bvals: &[&str]) -> Fields {
             gen_url(r)
         } else {
             match r.below(10) {
+                0 if r.chance(1, 6) => crate::typed::long_value(r),
                 0..=2 => r.pick(bvals).to_string(),
                 3 => String::new(),
                 4 | 5 => gen_value(r),
